@@ -4,6 +4,7 @@ import (
 	"time"
 
 	"github.com/karagenc/socket.io-go/internal/sync"
+	"github.com/karagenc/socket.io-go/internal/verifhook"
 
 	eio "github.com/karagenc/socket.io-go/engine.io"
 	eioparser "github.com/karagenc/socket.io-go/engine.io/parser"
@@ -34,6 +35,7 @@ func (pq *packetQueue) poll() (packets []*eioparser.Packet, ok, closed bool) {
 		ok = true
 		return
 	}
+	verifhook.Hit("packetQueue.poll:between-check-and-wait")
 
 	select {
 	// _close takes precedence.
